@@ -159,4 +159,15 @@ theorem cbcLast_eq_cbcMac (E : BlockFn) (hE : E.Len16) (key padded : Bytes) (hne
   unfold cbcLast cbcMac
   rw [lastN_flatten_getLast _ hc hall, cbcEncrypt_getLast]
 
+/-- The CBC-MAC of a non-empty block list is one block. -/
+theorem cbcMac_length (E : BlockFn) (hE : E.Len16) (key : Bytes) (b : Bytes) (bs : List Bytes) :
+    (cbcMac E key (b :: bs)).length = 16 := by
+  unfold cbcMac
+  generalize zero16 = iv
+  induction bs generalizing b iv with
+  | nil => simpa using hE key _
+  | cons b' bs ih =>
+    rw [List.foldl_cons]
+    exact ih b' _
+
 end XknxVerif.Crypto
